@@ -209,6 +209,9 @@ def render_link_ff(link):
         out.append("[ non-edges ]")
         for a, b, attrs in link["non_edges"]:
             out.append(f"{a} {b}" + _meta_str(attrs))
+    for level, text in link.get("log", []):
+        out.append(f"[ {level} ]")
+        out.append(text)
     if link.get("patterns"):
         out.append("[ patterns ]")
         for row in link["patterns"]:
